@@ -36,6 +36,7 @@ type determCase struct {
 	Tags  map[string][]string   `json:"tags"`
 	Vips  map[string][]vipSp    `json:"vips"`
 	W     map[string]int        `json:"w"`
+	Prevs []map[string]int      `json:"prevs"` // gslb: predecessor tables from which the files are reached by a reload (9 = absent)
 	E     string                `json:"e"` // reject | function
 	Why   []string              `json:"why"`
 	Mean  struct {
@@ -133,12 +134,34 @@ func writeDetermFiles(c *determCase, dir string) {
 }
 
 // oneLoad loads the files once and returns a canonical description of every answer.
-func oneLoad(c *determCase, dir string) (obs string, accepted bool, panicked string) {
+func oneLoad(c *determCase, dir string, r int) (obs string, accepted bool, panicked string) {
 	var sb strings.Builder
 	panicked = vh.Guard(func() {
 		if c.Kind == "gslb" {
 			bt := bfe_balance.NewBalTable(nil)
-			if err := bt.Init(filepath.Join(dir, "gslb.data"), filepath.Join(dir, "cluster_table.data")); err != nil {
+			if k := r % (len(c.Prevs) + 1); k > 0 {
+				// the same files reached by a reload: Init with predecessor k, then what GslbDataConfReload does
+				pf := filepath.Join(dir, fmt.Sprintf("gslb_prev%d.data", k))
+				pc := obj{}
+				for s, w := range c.Prevs[k-1] {
+					if w != 9 {
+						pc[s] = w
+					}
+				}
+				writeJSON(pf, obj{"Clusters": obj{"c1": pc}, "Hostname": "gslb-sch.example.com", "Ts": "20180101000000"})
+				if err := bt.Init(pf, filepath.Join(dir, "cluster_table.data")); err != nil {
+					sb.WriteString("predecessor-rejected")
+					return
+				}
+				g, ct, err := bt.BalTableConfLoad(filepath.Join(dir, "gslb.data"), filepath.Join(dir, "cluster_table.data"))
+				if err == nil {
+					err = bt.BalTableReload(g, ct)
+				}
+				if err != nil {
+					sb.WriteString("rejected")
+					return
+				}
+			} else if err := bt.Init(filepath.Join(dir, "gslb.data"), filepath.Join(dir, "cluster_table.data")); err != nil {
 				sb.WriteString("rejected")
 				return
 			}
@@ -222,6 +245,16 @@ func determDir(id int) string {
 	return d
 }
 
+// subOnly projects a gslb observation "ipN:<sub-cluster>/<backend>/<err>;..." onto its sub-clusters.
+func subOnly(o string) string {
+	var sb strings.Builder
+	for _, it := range strings.Split(o, ";") {
+		sb.WriteString(strings.SplitN(it, "/", 2)[0])
+		sb.WriteByte(';')
+	}
+	return sb.String()
+}
+
 func repeats() int {
 	if vh.Tier() == "thorough" {
 		return 60
@@ -267,10 +300,27 @@ func determRun() {
 		seen := map[string]int{}
 		anyAccepted := false
 		for r := 0; r < repeats(); r++ {
-			obs, acc, p := oneLoad(c, dir)
+			obs, acc, p := oneLoad(c, dir, r)
 			if p != "" {
 				res.fail("panic/"+c.Kind, p, nil)
 				break
+			}
+			if c.Kind == "gslb" && r%(len(c.Prevs)+1) > 0 {
+				// reached by a reload: the sub-cluster is a function of the files and the client address; which
+				// backend of it comes next is round-robin state, not configuration - compare the sub-clusters only
+				matched := false
+				for o := range seen {
+					if subOnly(o) == subOnly(obs) {
+						seen[o]++
+						matched = true
+						break
+					}
+				}
+				if !matched {
+					seen["via-reload-from-"+fmt.Sprint(c.Prevs[r%(len(c.Prevs)+1)-1])+" "+obs]++
+				}
+				anyAccepted = anyAccepted || acc
+				continue
 			}
 			seen[obs]++
 			anyAccepted = anyAccepted || acc
@@ -347,7 +397,7 @@ func determChild() {
 		if json.Unmarshal(line, &c) != nil {
 			return
 		}
-		obs, _, p := oneLoad(&c, determDir(c.ID))
+		obs, _, p := oneLoad(&c, determDir(c.ID), 0)
 		if p != "" {
 			obs = "panic"
 		}
